@@ -226,7 +226,7 @@ pub fn gen_expr(src: &mut Src, cfg: &SemCfg, sc: &SemCtx, ty: Ty, depth: usize) 
     let sub = |src: &mut Src, t: Ty| gen_expr(src, cfg, sc, t, d);
     // choice 0 is always a leaf
     match ty {
-        Ty::Num => match src.weighted(&[4, 6, 2, 2, 2, 2, 2, if cfg.observables { 4 } else { 0 }]) {
+        Ty::Num => match src.weighted(&[4, 6, 2, 2, 2, 2, 2, if cfg.observables { 9 } else { 0 }]) {
             0 => leaf(src, cfg, sc, Ty::Num),
             1 => {
                 let op = *src.choose(&["+", "-", "*", "/", "%", "+", "-", "*"]);
@@ -280,7 +280,7 @@ pub fn gen_expr(src: &mut Src, cfg: &SemCfg, sc: &SemCtx, ty: Ty, depth: usize) 
             6 => cond(src, cfg, sc, Ty::Num, d),
             _ => observable(src, cfg, sc, Ty::Num, d),
         },
-        Ty::Bool => match src.weighted(&[3, 4, 3, 3, 2, 2, 2, 2, if cfg.observables { 4 } else { 0 }]) {
+        Ty::Bool => match src.weighted(&[3, 4, 3, 3, 2, 2, 2, 2, if cfg.observables { 9 } else { 0 }]) {
             0 => leaf(src, cfg, sc, Ty::Bool),
             1 => {
                 let op = *src.choose(&["<", "<=", ">", ">="]);
@@ -573,4 +573,84 @@ pub fn ctx_from_json(j: &serde_json::Value) -> SemCtx {
 #[allow(dead_code)]
 pub fn literal_of(v: &V) -> R {
     value_to_r(v)
+}
+
+/// statement sequences for the assignment / order / containment properties
+pub fn gen_statements(src: &mut Src, cfg: &SemCfg, sc: &SemCtx, max: usize, failing: bool, fn_targets: bool) -> Vec<R> {
+    let n = 1 + src.pick(max);
+    let mut out = vec![];
+    for _ in 0..n {
+        let target = |src: &mut Src| -> String {
+            if fn_targets && src.chance(1, 8) {
+                let mut pool: Vec<String> = sc.funcs_of(Ty::Any).into_iter().map(|x| x.0).collect();
+                pool.push(UNBOUND[0].to_string());
+                src.choose(&pool).clone()
+            } else {
+                src.choose(&VAR_NAMES).to_string()
+            }
+        };
+        let kind = src.weighted(&[4, 4, 1, 2, 2, if failing { 1 } else { 0 }, if cfg.observables { 1 } else { 0 }]);
+        let st = match kind {
+            0 => {
+                let t = target(src);
+                let e = gen_expr(src, cfg, sc, Ty::Any, 1);
+                R::Infix("=".into(), bx(R::Ref(t)), bx(e))
+            }
+            1 => {
+                let t = target(src);
+                let op = *src.choose(&["+=", "-=", "*=", "/=", "%=", "<<=", ">>=", "&=", "^=", "|="]);
+                let e = if matches!(op, "<<=" | ">>=" | "&=" | "^=" | "|=") {
+                    if src.chance(3, 4) {
+                        R::Num(src.choose(&["0", "1", "2", "3", "7", "63", "64", "2.0"]).to_string())
+                    } else {
+                        gen_expr(src, cfg, sc, Ty::Num, 2)
+                    }
+                } else if (op == "/=" || op == "%=") && src.chance(3, 4) {
+                    R::Num(src.choose(&["2", "4", "5", "0.5", "10", "1", "0", "8"]).to_string())
+                } else {
+                    gen_expr(src, cfg, sc, Ty::Num, 2)
+                };
+                R::Infix(op.into(), bx(R::Ref(t)), bx(e))
+            }
+            2 => R::Ref(target(src)),
+            3 => gen_expr(src, cfg, sc, Ty::Any, 1),
+            4 => {
+                // nested / chained assignments
+                let (a, b) = (target(src), target(src));
+                match src.pick(4) {
+                    0 => {
+                        let e = gen_expr(src, cfg, sc, Ty::Any, 2);
+                        R::Infix("=".into(), bx(R::Ref(a)), bx(R::Infix("=".into(), bx(R::Ref(b)), bx(e))))
+                    }
+                    1 => R::Infix("=".into(), bx(R::Ref(a)), bx(R::Infix("+=".into(), bx(R::Ref(b)), bx(R::Num("1".into()))))),
+                    2 => {
+                        let e = gen_expr(src, cfg, sc, Ty::Any, 2);
+                        R::Infix("=".into(), bx(R::Ref(a.clone())), bx(R::Infix("=".into(), bx(R::Ref(a)), bx(e))))
+                    }
+                    _ => {
+                        // x op= something that itself rebinds x and still yields a number
+                        let inner = R::Infix("=".into(), bx(R::Ref(a.clone())), bx(R::Num(src.choose(&["5", "2", "0.5"]).to_string())));
+                        let rhs = R::Cond(bx(R::Infix("==".into(), bx(inner), bx(R::Ref(UNBOUND[1].to_string())))), bx(R::Num("3".into())), bx(R::Num("4".into())));
+                        R::Infix(src.choose(&["+=", "*=", "-="]).to_string(), bx(R::Ref(a)), bx(rhs))
+                    }
+                }
+            }
+            5 => match src.pick(7) {
+                0 => R::Infix("=".into(), bx(R::Ref(target(src))), bx(R::Infix("+".into(), bx(R::Num("1".into())), bx(R::Bool("true".into()))))),
+                1 => R::Infix("=".into(), bx(R::Ref(target(src))), bx(R::Infix("/".into(), bx(R::Num("1".into())), bx(R::Num("0".into()))))),
+                2 => R::Call("nofn".into(), vec![R::Num("1".into())]),
+                3 => R::Infix("=".into(), bx(R::Num("3".into())), bx(R::Num("4".into()))),
+                4 => R::Infix("=".into(), bx(R::Call("min".into(), vec![R::Num("1".into())])), bx(R::Num("4".into()))),
+                5 => R::Infix("+=".into(), bx(R::List(vec![R::Ref(VAR_NAMES[0].into())])), bx(R::Num("4".into()))),
+                _ => R::Infix("+=".into(), bx(R::Ref(target(src))), bx(R::Str("s".into(), '"'))),
+            },
+            _ => {
+                let t = src.choose(&VAR_NAMES).to_string();
+                let e = gen_expr(src, cfg, sc, Ty::Any, 2);
+                R::Infix("vh_set0".into(), bx(R::Ref(t)), bx(e))
+            }
+        };
+        out.push(st);
+    }
+    out
 }
